@@ -278,15 +278,25 @@ PROPS["C13"] = {
                 "Malloc/WriteBinary of 0,1,4095,4096,9000 bytes and Flush, on standard.Conn and network.NewWriter, with and without a failing Write; "
                 "(4) random sequences (<=60 / <=200 ops; parser-like, free and hostile modes; sizes 0..20 KiB and 512 KiB+-1, 600000; fragments 1 B..20 KiB; "
                 "errors and zero-length reads injected at any point; 13 initial buffer sizes). Observed per op: returned length, FNV-1a of returned bytes, "
-                "error class, Len(); peeked slices are re-hashed after every op and before every Release/Read; per Flush: bytes the peer received.",
-        "exhaustive_note": "families (1)-(3) are enumerated completely up to the stated length; (4) is sampled",
+                "error class, Len(); peeked slices are re-hashed after every op and before every Release/Read; per Flush: bytes the peer received. "
+                "Memory level (op c13m: reader + writer + caller + allocator on ONE connection; the caller keeps every slice it was handed, fills Malloc "
+                "reservations late, rewrites buffers it passed to WriteBinary before Flush; op X drains the mcache pools of all size classes in use, overwrites "
+                "the blocks and gives them back): (5) family (2) up to length 2/3 with X after every op; (6) 240 peek/skip/Release/X/peek-again sequences; "
+                "(7) every sequence of length <=3/<=4 over {Malloc now / reserved / late fill, WriteBinary 100,4095,4096,5000, rewrite buffer 0/1, Flush, X}, "
+                "with and without a failing Write; (8) 500/4000 random mixes (<=40/<=80 reader ops). The Lean memory model (heap of blocks, free list, allocator choice varying "
+                "with seed and position, same scribbling) predicts every output incl. the peer's bytes after a rewrite; the driver derives from the model which "
+                "peeked slices are protected and flags a change of one; per case it also checks memory model = list model on all reader outputs.",
+        "exhaustive_note": "families (1)-(3), (5)-(7) are enumerated completely up to the stated length; (4), (8) are sampled",
         "level_text": "Lean theorems for all operation sequences and all wire scripts (no size bound): the model of standard.Conn never panics or spins, "
                       "every returned slice is a prefix of the bytes sent and not yet consumed, consuming ops remove exactly what they return "
                       "(acceptance by the byte-queue spec Spec.Fifo), Len() = buffered-but-unconsumed bytes, non-releasing ops only append to blocks "
                       "(peek stability), Flush hands the peer exactly the pending bytes in order. Model held to the Go code by differential runs; "
                       "the spec acceptors (bytes, Len/size/error rules, writer) are evaluated on the implementation's own reports.",
         "level_note": "Trusted: Lean kernel, harness/driver, the scripted net.Conn (Read never returns more than asked, Write is all-or-error). "
-                      "mcache/sync.Pool recycling is modelled as block identities; real memory reuse is only exercised (re-hash of peeked slices).",
+                      "Memory level (Model/ConnMem.lean): mcache is a free list from which ANY freed block of the capacity class may return (theorems quantify "
+                      "over the choice) and whose blocks may be overwritten at any time; proved for all states and choices: ownership_invariant, "
+                      "peeked_ref_stable_mem, write_by_reference_contract, reserved_ref_stable_until_flush, flush_clears_references. Open: the refinement "
+                      "memory model -> list model as a theorem (checked per case by the driver).",
         "assumptions": ["sizes passed to Peek/Skip/ReadBinary/Malloc are >= 0 (negative sizes are API misuse: Skip(-k) silently grows Len())",
                         "net.Conn.Write returns n < len(p) only together with an error, and the harness only injects (0, err)",
                         "mcache.Malloc returns capacity = next power of two (gopkg v0.1.0)"],
